@@ -17,6 +17,7 @@ mod probes;
 mod props;
 mod queue;
 mod replay;
+mod typed;
 mod types;
 
 use explore::Case;
